@@ -170,7 +170,7 @@ PROPS = {
     "C14": dict(
         streams=[S(c, focus="all", n_quick=50, small=False, alloc_modes=True, coverage=True) for c in SEQ + MAPS + ["pqueue", "rbuf"]],
         relevant=rel_c14,
-        level_text=T("every allocation event of every model operation goes through the configured triple (the libc counter of the ledger is invariant).") + " Because this is a property of which function the C text calls, the weight is on the tie: every operation runs with two ledgers armed (configured / libc via linker --wrap) and every history is re-run on a static and on a dynamic pool of the library itself.",
+        level_text=T("every container state records the allocator triple it was built with (configured or C library), every allocation and release of every model operation goes through that triple (two separately counted ledgers), derived containers and wrapped inner containers inherit it exactly where the C code copies the three function pointers; outputs and states depend on the ledger only through the refusal schedule.") + " Because this is a property of which function the C text calls, the weight is on the tie: every operation runs with two ledgers armed (configured / libc via linker --wrap) and every history is re-run on a static and on a dynamic pool of the library itself.",
         level_note=LN,
     ),
     "C15": dict(
@@ -182,7 +182,7 @@ PROPS = {
     "C16": dict(
         streams=[S(c, focus="reject", n_quick=150) for c in ["array", "array_sized", "deque", "list", "slist", "treetable", "hashtable", "tsttable", "pqueue", "rbuf", "stack", "queue"]],
         relevant=rel_c16,
-        level_text=T("per operation: an error status other than ALLOC leaves the whole physical state unchanged, and every argument outside the documented range is rejected, for all arguments in the size_t domain."),
+        level_text=T("per operation: an error status other than ALLOC leaves the whole physical state unchanged, and every argument outside the documented range is rejected, for all arguments in the size_t domain.") + " The argument guards of 31 indexed functions are additionally translated from the C text into Lean on every run (tools/gen_guards.py) and proved equal to the models' guards, so an edited guard breaks a proof obligation at build time.",
         level_note=LN,
     ),
     "C17": dict(
@@ -200,7 +200,7 @@ PROPS = {
     "C20": dict(
         streams=[S(c, focus="growth", n_quick=60, growth_count=True) for c in ["array", "array_sized", "pqueue", "deque", "hashtable", "stack", "queue"]],
         relevant=rel_c20, extra_lean=["CollectionsC/Proofs/Growth.lean"],
-        level_text=T("size <= capacity and power-of-two capacities are part of each invariant; the number of reallocations during n appends is at most log2(size+n)+1 whenever a growth step at least doubles the capacity (default factor, deque, hash table).") + " The run counts real buffer allocations per append through the ledger and compares them with the bound for the configured factor.",
+        level_text=T("size <= capacity and power-of-two capacities are part of each invariant; the number of reallocations during n appends is at most log2(size+n)+1 whenever a growth step at least doubles the capacity (default factor, deque, hash table); for the pointer array also a bound for every factor >= 1+1/k.") + " The run counts real buffer allocations per append through the ledger and compares them with the bound for the configured factor.",
         level_note=LN + "General rational factors are measured, not proved.",
     ),
     "C19": dict(
